@@ -14,15 +14,30 @@ What is proved here, and what is not:
   * `roundtrip_properties_partial`, `props_single_record`
         restricted to safe keys/values, separator `=`, one newline after each record; no comments,
         no escapes, no continuation lines, no other layouts (those are covered differentially)
-  * `ini_single_record_partial`                    one record; no list theorem, no comments
+  * `roundtrip_properties_comments_partial` (+ `attached_comment_span`, `attached_comment_val`)
+        the same records, each with at most ONE preceding `# text` line: pre-comment span and comment value
+  * `garbage_local_properties_partial`             records, one inert garbage line, records (properties only)
+  * `ini_single_record_partial`, `roundtrip_ini_partial`
+        one record / a section header + an unbounded list of records; no comments, no blank lines
+  * `roundtrip_inc_partial` (+ `roundtrip_inc_absent_val_span`)   unbounded lists of `#define KEY value`
+  * `roundtrip_dtd_partial`                        unbounded lists of `<!ENTITY key "value">`, ASCII names, no `&`
+  * `po_single_record_partial`                     ONE `msgid "K"⏎msgstr "V"⏎` record (spans, fragments, eval, view)
   * `license_standalone_*`                         FULL for properties / base getNext / po / dtd; ini under `s[off] ≠ '['`
-  * dtd, inc, po round trips, every `garbage_local`, Fluent and Android: NOT proved (harness only)
+  * every other layout of these formats, po lists, `garbage_local` for the other formats, Fluent and Android:
+    NOT proved (harness only)
+  Helper lemmas of sections (6)–(11) live in CLModel/Proofs/C02X*.lean (namespace `C02X`).
 -/
 import CLModel.Parser.Values
 import CLModel.Proofs.C02Props
 import CLModel.Proofs.C02Po
 import CLModel.Proofs.C02Roundtrip
 import CLModel.Proofs.C02Ini
+import CLModel.Proofs.C02XIni
+import CLModel.Proofs.C02XInc
+import CLModel.Proofs.C02XDtd
+import CLModel.Proofs.C02XComment
+import CLModel.Proofs.C02XGarbage
+import CLModel.Proofs.C02XPo
 namespace C02
 open P Rx Gen.Pat
 
@@ -200,5 +215,270 @@ theorem ini_single_record_partial (s : Array Nat) (off klen vlen : Nat) (h : Ini
 example : iniGetNext #[107, 32, 61, 32, 118, 32, 10, 120] 0 = iniEntity 0 2 3 := by decide
 -- NEGATION WITNESS for "key does not start with [": "[a]=b" is a section, not an entity
 example : (iniGetNext #[91, 97, 93, 61, 98] 0).kind = .section := by decide
+
+/-! ### (6) ini: a whole printed file (section header + records) -/
+
+/-- ini, a whole file: for EVERY section name without `]` and newline and EVERY list of safe ini records (key non-empty,
+    without `=` and newline, not starting with `[ ; #` or white-space; value without newline — blanks are kept) printed as
+    `[sec]⏎` followed by `key=value⏎` per record, `IniParser.walk` terminates and yields EXACTLY: the section entry
+    (span `[sec]`, value span `sec`), a one-newline white-space entry, and per record the entity (span `key=value`, key
+    span, value span) followed by a one-newline white-space entry (`C02X.iniExpEntries`); the entities evaluate to exactly
+    the printed keys and raw values (value = raw value), no comment attached; there is no junk.
+    FULL statement (not proved): all legal layouts (blank lines, comments, no section / several sections, CRLF). -/
+theorem roundtrip_ini_partial (sec : List Nat) (rs : List PRec) (hsec : ∀ c ∈ sec, c ≠ 93 ∧ c ≠ 10)
+    (h : ∀ r ∈ rs, C02X.SafeIniRec r) :
+    walk .ini (C02X.printIni sec rs).toArray = .done (C02X.iniExpEntries sec rs) ∧
+      entitiesOf .ini (C02X.printIni sec rs).toArray (C02X.iniExpEntries sec rs) = rs.map expectedView ∧
+      junkOf (C02X.printIni sec rs).toArray (C02X.iniExpEntries sec rs) = [] :=
+  ⟨C02X.walk_ini_printed sec rs hsec h, C02X.entitiesOf_iniExpEntries sec rs⟩
+
+-- non-vacuity: "[Strings]⏎a b= x ⏎k=⏎"  (blanks inside key and around the value are kept, empty value)
+example : C02X.SafeIniRec ([97, 32, 98], [32, 120, 32]) ∧ C02X.SafeIniRec ([107], []) := by
+  constructor <;> constructor <;> simp
+example : C02X.printIni [83, 116, 114, 105, 110, 103, 115] [([97, 32, 98], [32, 120, 32]), ([107], [])] =
+    [91, 83, 116, 114, 105, 110, 103, 115, 93, 10, 97, 32, 98, 61, 32, 120, 32, 10, 107, 61, 10] := by decide
+example : C02X.iniExpEntries [83, 116, 114, 105, 110, 103, 115] [([97, 32, 98], [32, 120, 32]), ([107], [])] =
+    [{ kind := .section, full := 0, s := 0, e := 9, ks := 1, ke := 8, vs := 1, ve := 8 },
+     { kind := .whitespace, full := 9, s := 9, e := 10, ks := 9, ke := 10, vs := 9, ve := 10 },
+     { kind := .entity, full := 10, s := 10, e := 17, ks := 10, ke := 13, vs := 14, ve := 17 },
+     { kind := .whitespace, full := 17, s := 17, e := 18, ks := 17, ke := 18, vs := 17, ve := 18 },
+     { kind := .entity, full := 18, s := 18, e := 20, ks := 18, ke := 19, vs := 20, ve := 20 },
+     { kind := .whitespace, full := 20, s := 20, e := 21, ks := 20, ke := 21, vs := 20, ve := 21 }] := by decide
+-- NEGATION WITNESSES (what the code does at the excluded points):
+-- a key starting with `;` is a comment line ("[S]⏎;a=b⏎": the entry at offset 4 is a comment)
+example : (iniGetNext #[91, 83, 93, 10, 59, 97, 61, 98, 10] 4).kind = .comment := by decide
+-- a key containing `=`: the key ends at the FIRST `=` ("a=b=c": key span 0..1, value span 2..5)
+example : ((iniGetNext #[97, 61, 98, 61, 99] 0).ke, (iniGetNext #[97, 61, 98, 61, 99] 0).vs) = (1, 2) := by decide
+-- a section name containing `]` ends at the first `]` ("[a]b]⏎": section value span 1..2, entry ends at 3)
+example : ((iniGetNext #[91, 97, 93, 98, 93, 10] 0).ke, (iniGetNext #[91, 97, 93, 98, 93, 10] 0).e) = (2, 3) := by decide
+-- a key starting with a blank: the blank goes to the white-space entry, the key loses it ("[S]⏎ a=b": ws entry 3..5)
+example : (iniGetNext #[91, 83, 93, 10, 32, 97, 61, 98] 3).e = 5 := by decide
+
+/-! ### (7) .inc (DefinesParser): a whole printed file -/
+
+/-- .inc, a whole file: for EVERY list of safe records (key non-empty, made of ASCII letters / digits / underscore; value
+    without newline, possibly empty) printed as `#define KEY value⏎` — resp. `#define KEY⏎` when the value is empty — one
+    directly after the other (no blank lines, so the `#filter emptyLines` state is irrelevant; it stays `False`),
+    `DefinesParser.walk` terminates and yields EXACTLY, per record, the entity followed by a one-newline white-space entry
+    (`C02X.incExpEntries`): entity span = the line without its newline, key span = `KEY`, value span = the text after the ONE
+    separating blank; for an EMPTY value the `val` group takes no part in the match and the value span is Python's
+    `(-1, -1)` (see `roundtrip_inc_absent_val_span`), whose slice is the empty text.  The entities evaluate to exactly the
+    printed keys and raw values (value = raw value), no comment attached; there is no junk.
+    FULL statement (not proved): comments, blank lines under `#filter emptyLines`, other instructions, tabs/several
+    blanks after `#define`, non-ASCII `\w` keys. -/
+theorem roundtrip_inc_partial (rs : List C02X.IRec) (h : ∀ r ∈ rs, C02X.SafeIncRec r) :
+    walk .inc (C02X.printInc rs).toArray = .done (C02X.incExpEntries 0 rs) ∧
+      entitiesOf .inc (C02X.printInc rs).toArray (C02X.incExpEntries 0 rs) = rs.map expectedView ∧
+      junkOf (C02X.printInc rs).toArray (C02X.incExpEntries 0 rs) = [] :=
+  ⟨C02X.walk_inc_printed rs h, C02X.entitiesOf_incExpEntries _ rs 0 (by simp)⟩
+
+/-- the spans of one record explicitly: empty value ⇒ value span `(-1, -1)`; otherwise the text after the blank -/
+theorem roundtrip_inc_absent_val_span (off klen : Nat) :
+    ((C02X.incEntity off klen 0).vs, (C02X.incEntity off klen 0).ve) = (-1, -1) ∧
+      ∀ vlen, 0 < vlen → ((C02X.incEntity off klen vlen).vs, (C02X.incEntity off klen vlen).ve) =
+        (((off + 8 + klen + 1 : Nat) : Int), ((off + 8 + klen + 1 + vlen : Nat) : Int)) := by
+  constructor
+  · simp [C02X.incEntity]
+  · intro vlen hv
+    have : vlen ≠ 0 := by omega
+    simp [C02X.incEntity, this]
+
+-- non-vacuity: "#define A_1  x y" (value " x y" keeps its own leading blank) and "#define b" (no value)
+example : C02X.SafeIncRec ([65, 95, 49], [32, 120, 32, 121]) ∧ C02X.SafeIncRec ([98], []) := by
+  constructor <;> constructor <;> simp <;> decide
+example : C02X.printInc [([65, 95, 49], [32, 120, 32, 121]), ([98], [])] =
+    [35, 100, 101, 102, 105, 110, 101, 32, 65, 95, 49, 32, 32, 120, 32, 121, 10,
+     35, 100, 101, 102, 105, 110, 101, 32, 98, 10] := by decide
+example : C02X.incExpEntries 0 [([65, 95, 49], [32, 120, 32, 121]), ([98], [])] =
+    [{ kind := .entity, full := 0, s := 0, e := 16, ks := 8, ke := 11, vs := 12, ve := 16 },
+     { kind := .whitespace, full := 16, s := 16, e := 17, ks := 16, ke := 17, vs := 16, ve := 17 },
+     { kind := .entity, full := 17, s := 17, e := 26, ks := 25, ke := 26, vs := -1, ve := -1 },
+     { kind := .whitespace, full := 26, s := 26, e := 27, ks := 26, ke := 27, vs := 26, ve := 27 }] := by decide
+-- NEGATION WITNESSES (what the code does at the excluded points):
+-- a key character outside `\w` ends the key and the entity: "#define a-b x⏎" is the entity `a` (0..9) followed by junk "-b x⏎"
+set_option maxRecDepth 100000 in
+example : (definesGetNext #[35, 100, 101, 102, 105, 110, 101, 32, 97, 45, 98, 32, 120, 10] false 0).1 =
+    { kind := .entity, full := 0, s := 0, e := 9, ks := 8, ke := 9 } ∧
+  (definesGetNext #[35, 100, 101, 102, 105, 110, 101, 32, 97, 45, 98, 32, 120, 10] false 9).1 =
+    { kind := .junk, full := 9, s := 9, e := 14 } := by decide
+-- an empty value printed WITH the separating blank ("#define b ⏎") gives an empty but present value span (10, 10)
+set_option maxRecDepth 100000 in
+example : ((definesGetNext #[35, 100, 101, 102, 105, 110, 101, 32, 98, 32, 10] false 0).1.vs,
+    (definesGetNext #[35, 100, 101, 102, 105, 110, 101, 32, 98, 32, 10] false 0).1.ve) = (10, 10) := by decide
+-- a blank line between records (outside `#filter emptyLines`) is junk: "#define a⏎⏎#define b⏎" at offset 9
+set_option maxRecDepth 100000 in
+example : (definesGetNext #[35, 100, 101, 102, 105, 110, 101, 32, 97, 10, 10, 35, 100, 101, 102, 105, 110, 101, 32, 98, 10] false 9).1.kind = .junk := by decide
+
+/-! ### (8) DTD: a whole printed file -/
+
+/-- DTD, a whole file: for EVERY list of safe records (key = an ASCII letter followed by ASCII letters / digits / `.` / `-`;
+    value without `"` and without `&`; newlines, `<`, `%`, `'` in the value are allowed) printed as
+    `<!ENTITY key "value">⏎` one after the other, `DTDParser.walk` terminates and yields EXACTLY, per record, the entity
+    followed by a one-newline white-space entry (`C02X.dtdExpEntries`): entity span = `<!ENTITY … >`, key span = `key`,
+    value span = the quoted text WITHOUT the two quotes (`createEntity` shrinks the span of the `val` group by one on each
+    side).  The entities evaluate to exactly the printed keys and raw values (value = raw value: there is no `&` to
+    unescape), no comment attached; there is no junk.
+    FULL statement (not proved): single-quoted values, non-ASCII names, other white-space, comments, parameter entities,
+    byte-order mark, values with character references (needs `html.unescape`). -/
+theorem roundtrip_dtd_partial (rs : List C02X.DRec) (h : ∀ r ∈ rs, C02X.SafeDtdRec r) :
+    walk .dtd (C02X.printDtd rs).toArray = .done (C02X.dtdExpEntries 0 rs) ∧
+      entitiesOf .dtd (C02X.printDtd rs).toArray (C02X.dtdExpEntries 0 rs) = rs.map expectedView ∧
+      junkOf (C02X.printDtd rs).toArray (C02X.dtdExpEntries 0 rs) = [] :=
+  ⟨C02X.walk_dtd_printed rs h, C02X.entitiesOf_dtdExpEntries _ rs 0 (by simp) h⟩
+
+-- non-vacuity: `<!ENTITY a.b "x y">` and `<!ENTITY k "">` (empty value)
+example : C02X.SafeDtdRec ([97, 46, 98], [120, 32, 121]) ∧ C02X.SafeDtdRec ([107], []) := by
+  constructor <;> constructor <;> simp <;> decide
+example : C02X.printDtd [([97, 46, 98], [120, 32, 121]), ([107], [])] = [60, 33, 69, 78, 84, 73, 84, 89, 32, 97, 46, 98, 32, 34, 120, 32, 121, 34, 62, 10, 60, 33, 69, 78, 84, 73, 84, 89, 32, 107, 32, 34, 34, 62, 10] := by decide
+example : C02X.dtdExpEntries 0 [([97, 46, 98], [120, 32, 121]), ([107], [])] =
+    [{ kind := .entity, full := 0, s := 0, e := 19, ks := 9, ke := 12, vs := 14, ve := 17 },
+     { kind := .whitespace, full := 19, s := 19, e := 20, ks := 19, ke := 20, vs := 19, ve := 20 },
+     { kind := .entity, full := 20, s := 20, e := 34, ks := 29, ke := 30, vs := 32, ve := 32 },
+     { kind := .whitespace, full := 34, s := 34, e := 35, ks := 34, ke := 35, vs := 34, ve := 35 }] := by decide
+-- NEGATION WITNESSES (what the code does at the excluded points):
+-- a key starting with a digit: the whole line is junk (`<!ENTITY 1a "x">⏎`)
+example : dtdGetNext #[60, 33, 69, 78, 84, 73, 84, 89, 32, 49, 97, 32, 34, 120, 34, 62, 10] 0 = { kind := .junk, full := 0, s := 0, e := 17 } := by decide
+-- a `"` inside the value ends the value, `>` does not follow: junk (`<!ENTITY a "x"y">⏎`)
+example : (dtdGetNext #[60, 33, 69, 78, 84, 73, 84, 89, 32, 97, 32, 34, 120, 34, 121, 34, 62, 10] 0).kind = .junk := by decide
+-- a `&` in the value: the spans are still exact (value span 12..19) but the VALUE needs `html.unescape` (not modelled: `none`)
+example : (entView .dtd #[60, 33, 69, 78, 84, 73, 84, 89, 32, 97, 32, 34, 120, 38, 97, 109, 112, 59, 121, 34, 62, 10] (dtdGetNext #[60, 33, 69, 78, 84, 73, 84, 89, 32, 97, 32, 34, 120, 38, 97, 109, 112, 59, 121, 34, 62, 10] 0)).map (·.val) = some none := by decide
+
+/-! ### (9) properties: records with an attached one-line comment -/
+
+/-- properties with comments, a whole file: every record may carry ONE preceding comment line `# text⏎` (text without any
+    line boundary character, see `C02X.SafeCRec`); records are safe as in `roundtrip_properties_partial`.  If the FIRST
+    record carries a comment, its text must not contain "License" (otherwise `license_standalone_properties` applies: the
+    comment is standalone — the rule only exists at offset 0, so no other comment is restricted).  Then
+    `PropertiesParser.walk` terminates and yields EXACTLY, per record, the entity followed by a one-newline white-space
+    entry (`C02X.expCEntries`); for a record with a comment the entity's `pre_comment` span is exactly the comment line
+    WITHOUT its newline (`attached_comment_span`), the entry's full span starts at the `#`, its own span at the key.
+    The entities evaluate to exactly the printed keys, raw values, values (= raw values) and comment values, where the
+    comment value is the line without its FIRST character — `OffsetComment` strips `comment_offset = 1` character per
+    line, so the blank after `#` is kept: ` text` (`attached_comment_val`).  No junk.
+    FULL statement (not proved): multi-line comments, `!` comments, comments separated by blank lines (standalone),
+    other layouts. -/
+theorem roundtrip_properties_comments_partial (rs : List C02X.CRec) (h : ∀ r ∈ rs, C02X.SafeCRec r)
+    (hlic : ∀ r c, rs.head? = some r → r.1 = some c → isInfix licenseWord c = false) :
+    walk .properties (C02X.printCProps rs).toArray = .done (C02X.expCEntries 0 rs) ∧
+      entitiesOf .properties (C02X.printCProps rs).toArray (C02X.expCEntries 0 rs) = rs.map C02X.expectedCView ∧
+      junkOf (C02X.printCProps rs).toArray (C02X.expCEntries 0 rs) = [] :=
+  ⟨C02X.walk_cprops_printed rs h hlic, C02X.entitiesOf_expCEntries _ rs 0 (by simp) h⟩
+
+/-- the spans of an entity with an attached comment `# text` (length `|text| + 2`) printed at `off`: the pre-comment span
+    is the comment line without its newline; the entry starts at the comment, the entity proper after the newline -/
+theorem attached_comment_span (off : Nat) (c : List Nat) (r : PRec) :
+    (C02X.crecEntity off (some c, r)).pc = some (off, off + (c.length + 2)) ∧
+      (C02X.crecEntity off (some c, r)).full = off ∧ (C02X.crecEntity off (some c, r)).s = off + (c.length + 2) + 1 :=
+  ⟨rfl, rfl, rfl⟩
+
+/-- `OffsetComment.val` of a one-line comment `# text`: exactly one character (the `#`) is stripped -/
+theorem attached_comment_val (c : List Nat) (hb : ∀ ch ∈ c, isLineBreak ch = false) :
+    commentVal (.offset Gen.Tables.offsetCommentDefault) (35 :: 32 :: c) = 32 :: c :=
+  C02X.commentVal_oneLine c hb
+
+-- non-vacuity: "# hi⏎a=b⏎c=d⏎": the first record carries the comment "# hi"
+example : C02X.SafeCRec (some [104, 105], ([97], [98])) ∧ C02X.SafeCRec (none, ([99], [100])) := by
+  refine ⟨⟨?_, ?_⟩, ⟨?_, ?_⟩⟩
+  · constructor <;> simp [propsKeyChar]
+  · intro c hc; cases hc; decide
+  · constructor <;> simp [propsKeyChar]
+  · intro c hc; cases hc
+example : C02X.printCProps [(some [104, 105], ([97], [98])), (none, ([99], [100]))] =
+    [35, 32, 104, 105, 10, 97, 61, 98, 10, 99, 61, 100, 10] := by decide
+example : C02X.expCEntries 0 [(some [104, 105], ([97], [98])), (none, ([99], [100]))] =
+    [{ kind := .entity, full := 0, s := 5, e := 8, ks := 5, ke := 6, vs := 7, ve := 8, pc := some (0, 4) },
+     { kind := .whitespace, full := 8, s := 8, e := 9, ks := 8, ke := 9, vs := 8, ve := 9 },
+     { kind := .entity, full := 9, s := 9, e := 12, ks := 9, ke := 10, vs := 11, ve := 12 },
+     { kind := .whitespace, full := 12, s := 12, e := 13, ks := 12, ke := 13, vs := 12, ve := 13 }] := by decide
+example : (C02X.expectedCView (some [104, 105], ([97], [98]))).map (·.comment) = some (some [32, 104, 105]) := by decide
+-- NEGATION WITNESSES (what the code does at the excluded points):
+-- the License hypothesis on the first comment: see the `# License⏎a=b` examples of section (4) (standalone comment)
+-- a line boundary character other than newline inside the comment text (VT, 0x0b): the regex does not care, but
+-- `splitlines` starts a new line there and ONE MORE character is dropped  ("# a\x0bbc"  ->  " a\x0bc")
+example : commentVal (.offset Gen.Tables.offsetCommentDefault) [35, 32, 97, 11, 98, 99] = [32, 97, 11, 99] := by decide
+-- a blank line between comment and record: the comment is standalone ("# a⏎⏎b=c⏎")
+example : propsGetNext #[35, 32, 97, 10, 10, 98, 61, 99, 10] 0 = { kind := .comment, full := 0, s := 0, e := 3 } := by decide
+-- two comment lines are ONE pre-comment ("# a⏎# b⏎b=c⏎": pre-comment span 0..7), outside the printed class
+example : (propsGetNext #[35, 32, 97, 10, 35, 32, 98, 10, 98, 61, 99, 10] 0).pc = some (0, 7) := by decide
+
+/-! ### (10) properties: junk damage stays local -/
+
+/-- garbage locality, properties: take ANY two lists of safe records (either may be empty) and ANY inert garbage line `g`
+    (non-empty, without `= : # !` and newline, not starting with white-space), printed as the first records, then `g⏎`,
+    then the other records.  `PropertiesParser.walk` terminates and yields EXACTLY the entries of the first records, ONE
+    junk entry, and the entries of the other records (`C02X.garbageExpEntries`): every record is recovered unchanged (key,
+    raw value, value, no comment) and the only junk text is exactly `g⏎` (`getJunk` stops where the key regex matches
+    next — the start of the following record — or at the end of the text).
+    FULL statement (not proved): the fixed garbage family of the harness at every insertion point in every layout, with
+    comments, for all formats. -/
+theorem garbage_local_properties_partial (rs1 : List PRec) (g : List Nat) (rs2 : List PRec)
+    (h1 : ∀ r ∈ rs1, SafeRec r) (hg : C02X.SafeGarbage g) (h2 : ∀ r ∈ rs2, SafeRec r) :
+    walk .properties (C02X.printWithGarbage rs1 g rs2).toArray = .done (C02X.garbageExpEntries rs1 g rs2) ∧
+      entitiesOf .properties (C02X.printWithGarbage rs1 g rs2).toArray (C02X.garbageExpEntries rs1 g rs2) =
+        (rs1 ++ rs2).map expectedView ∧
+      junkOf (C02X.printWithGarbage rs1 g rs2).toArray (C02X.garbageExpEntries rs1 g rs2) = [g ++ [10]] :=
+  ⟨C02X.walk_garbage_printed rs1 g rs2 h1 hg h2, C02X.views_garbage_printed rs1 g rs2 h1 h2⟩
+
+-- non-vacuity: "a=b⏎x y⏎c=d⏎" (garbage "x y", blanks inside are fine)
+example : C02X.SafeGarbage [120, 32, 121] := by constructor <;> simp
+example : C02X.printWithGarbage [([97], [98])] [120, 32, 121] [([99], [100])] =
+    [97, 61, 98, 10, 120, 32, 121, 10, 99, 61, 100, 10] := by decide
+example : C02X.garbageExpEntries [([97], [98])] [120, 32, 121] [([99], [100])] =
+    [{ kind := .entity, full := 0, s := 0, e := 3, ks := 0, ke := 1, vs := 2, ve := 3 },
+     { kind := .whitespace, full := 3, s := 3, e := 4, ks := 3, ke := 4, vs := 3, ve := 4 },
+     { kind := .junk, full := 4, s := 4, e := 8 },
+     { kind := .entity, full := 8, s := 8, e := 11, ks := 8, ke := 9, vs := 10, ve := 11 },
+     { kind := .whitespace, full := 11, s := 11, e := 12, ks := 11, ke := 12, vs := 11, ve := 12 }] := by decide
+-- NEGATION WITNESSES (what the code does at the excluded points):
+-- garbage containing `=` is simply another entity ("x=y")
+example : (propsGetNext #[97, 61, 98, 10, 120, 61, 121, 10, 99, 61, 100, 10] 4).kind = .entity := by decide
+-- garbage containing `#` ("x # y"): the junk ends at the `#` (offset 6) and "# y" becomes the PRE-COMMENT of the next
+-- record (its `pc` is 6..9): here the damage is NOT local — the comment regex is not anchored at a line start
+example : propsGetNext #[97, 61, 98, 10, 120, 32, 35, 32, 121, 10, 99, 61, 100, 10] 4 = { kind := .junk, full := 4, s := 4, e := 6 } ∧
+    (propsGetNext #[97, 61, 98, 10, 120, 32, 35, 32, 121, 10, 99, 61, 100, 10] 6).pc = some (6, 9) := by decide
+-- garbage starting with a blank (" x"): the blank joins the preceding white-space entry (3..5), the junk is "x⏎" only
+example : (propsGetNext #[97, 61, 98, 10, 32, 120, 10, 99, 61, 100, 10] 3).e = 5 ∧ propsGetNext #[97, 61, 98, 10, 32, 120, 10, 99, 61, 100, 10] 5 = { kind := .junk, full := 5, s := 5, e := 7 } := by decide
+
+/-! ### (11) PO: one record -/
+
+/-- PO, one record: if at offset `|pre|` the text reads `msgid "K"⏎msgstr "V"⏎` — K and V without `"`, backslash and
+    newline (either may be empty) — and what follows is the end of the text or starts with something that is neither
+    white-space nor a quote (e.g. the next `msgid`, a `#` comment), then `PoParser.getNext` returns the entity whose span is
+    `msgid "K"⏎msgstr "V"` (without the final newline), key span `msgid "K"`, value span `msgstr "V"`; `createEntity`
+    finds no `msgctxt`, exactly one `msgid` fragment and one `msgstr` fragment (the texts between the quotes), and
+    `eval_stringlist` of them is K resp. V; the entity evaluates to key K, context `None`, raw value `msgstr "V"`, value V —
+    or K when V is empty (`stringlist_val if stringlist_val else stringlist_key[0]`) — and no comment.
+    FULL statement (not proved): lists of records separated by blank lines, several fragments per string list, escapes in
+    fragments (their VALUE is `po_unescape_is_spec`), `msgctxt`, comments. -/
+theorem po_single_record_partial (pre K V rest : List Nat)
+    (hK : ∀ c ∈ K, c ≠ 34 ∧ c ≠ 10 ∧ c ≠ 92) (hV : ∀ c ∈ V, c ≠ 34 ∧ c ≠ 10 ∧ c ≠ 92)
+    (hrest : ∀ c, rest.head? = some c → c ≠ 32 ∧ c ≠ 9 ∧ c ≠ 13 ∧ c ≠ 10 ∧ c ≠ 34) :
+    poGetNext (pre ++ C02X.printPoRec K V ++ rest).toArray pre.length = C02X.poEntity pre.length K.length V.length ∧
+      poCreate (pre ++ C02X.printPoRec K V ++ rest).toArray pre.length = some (C02X.poPartsOf pre.length K.length V.length) ∧
+      poEval (pre ++ C02X.printPoRec K V ++ rest).toArray (C02X.poPartsOf pre.length K.length V.length).msgid = some K ∧
+      poEval (pre ++ C02X.printPoRec K V ++ rest).toArray (C02X.poPartsOf pre.length K.length V.length).msgstr = some V ∧
+      entView .po (pre ++ C02X.printPoRec K V ++ rest).toArray (C02X.poEntity pre.length K.length V.length) =
+        C02X.expectedPoView K V := by
+  have hrec := C02X.poRecAt_of_drop (pre ++ C02X.printPoRec K V ++ rest).toArray pre.length K V rest hK hV hrest
+    (by simp)
+  have hK' : ∀ c ∈ K, c ≠ 92 := fun c hc => (hK c hc).2.2
+  have hV' : ∀ c ∈ V, c ≠ 92 := fun c hc => (hV c hc).2.2
+  exact ⟨C02X.po_entity_at _ _ K V hrec, C02X.po_create _ _ K V hrec, (C02X.po_eval_parts _ _ K V hrec hK' hV').1,
+    (C02X.po_eval_parts _ _ K V hrec hK' hV').2, C02X.entView_poEntity _ _ K V hrec hK' hV'⟩
+
+-- non-vacuity: `msgid "a b"⏎msgstr "x"⏎` followed by the next `msgid`, after a two-character prefix "⏎⏎"
+example : C02X.printPoRec [97, 32, 98] [120] = [109, 115, 103, 105, 100, 32, 34, 97, 32, 98, 34, 10, 109, 115, 103, 115, 116, 114, 32, 34, 120, 34, 10] := by decide
+example : C02X.poEntity 2 3 1 = { kind := .entity, full := 2, s := 2, e := 24, ks := 2, ke := 13, vs := 14, ve := 24 } := by decide
+example : C02X.poPartsOf 2 3 1 = { e := 24, idS := 2, idE := 13, valS := 14, msgctxt := none, msgid := [(9, 12)], msgstr := [(22, 23)] } := by decide
+example : C02X.expectedPoView [97, 32, 98] [] =
+    some { key := [97, 32, 98], ctxt := some none, raw := [109, 115, 103, 115, 116, 114, 32, 34, 34], val := some [97, 32, 98], comment := none } := by
+  decide
+-- NEGATION WITNESSES (what the code does at the excluded points):
+-- a quoted text on the next line is a CONTINUATION fragment of msgstr (hypothesis on `rest`): the entity ends at 25, not 19
+example : (poGetNext #[109, 115, 103, 105, 100, 32, 34, 97, 34, 10, 109, 115, 103, 115, 116, 114, 32, 34, 120, 34, 10, 34, 121, 122, 34, 10] 0).e = 25 := by decide
+-- a `"` inside K ends the fragment; the record is no entity any more (junk)
+example : (poGetNext #[109, 115, 103, 105, 100, 32, 34, 97, 34, 98, 34, 10, 109, 115, 103, 115, 116, 114, 32, 34, 120, 34, 10] 0).kind = .junk := by decide
+-- a backslash in V: the spans are as printed, but the value is the unescaped text (`x\ny` -> x, newline, y)
+example : (entView .po #[109, 115, 103, 105, 100, 32, 34, 97, 34, 10, 109, 115, 103, 115, 116, 114, 32, 34, 120, 92, 110, 121, 34, 10] (poGetNext #[109, 115, 103, 105, 100, 32, 34, 97, 34, 10, 109, 115, 103, 115, 116, 114, 32, 34, 120, 92, 110, 121, 34, 10] 0)).map (·.val) = some (some [120, 10, 121]) := by decide
 
 end C02
